@@ -901,11 +901,14 @@ func c19sEnumerate(thorough bool, visit func(tc c19sCase) bool) {
 								continue // HTTP/1.1 can't do full duplex
 							}
 							for _, pad := range pads {
-								if side == "client" && pad == "noise" && limit < 3000 {
-									// With little incompressible data the compressed size of the
-									// response hovers round its uncompressed size and depends on the
-									// (map-iteration) order in which the server echoes the request
-									// headers: not a reproducible case. Large noise is reproducible.
+								if side == "client" && pad == "noise" && limit != 4000 {
+									// The server echoes the request headers in map-iteration order, so
+									// the compressed form of a response differs from run to run while its
+									// uncompressed size does not. Incompressible data makes the compressed
+									// size hover round the uncompressed one, and whether it ends up above
+									// the limit is then not reproducible - except where the margin is
+									// wide: 4000 noise bytes (snappy stores the chunk raw, +18 bytes; the
+									// other codecs still gain ~100+ bytes on the header text).
 									continue
 								}
 								for _, k := range ks {
